@@ -286,6 +286,96 @@ func runC09(r *Run) error {
 			return err
 		}
 	}
+	for gi := 0; gi < gated; gi++ {
+		if err := c09LateMessage(r, gi); err != nil {
+			return err
+		}
+	}
+	return nil
+}
+
+// c09LateMessage: a head-exchange message for database A reaches the instance when A is not
+// open there (it was closed); afterwards ANOTHER database B is created on the instance.  B
+// must be untouched by it: empty log, replication status 0/0, no replication events.
+func c09LateMessage(r *Run, gi int) error {
+	ctx := context.Background()
+	s, err := NewScen(2, "eventlog", &ScenOpts{NoOpen: true})
+	if err != nil {
+		return err
+	}
+	defer s.Close()
+	X, Y := s.Reps[0], s.Reps[1]
+	ac := &accesscontroller.CreateAccessControllerOptions{Access: map[string][]string{"write": {"*"}}}
+	a, err := X.Orbit.Create(ctx, fmt.Sprintf("late-%s-a", s.Label), "eventlog", &orbitdb.CreateDBOptions{AccessController: ac})
+	if err != nil {
+		return err
+	}
+	ya, err := Y.Orbit.Open(ctx, a.Address().String(), &orbitdb.CreateDBOptions{})
+	if err != nil {
+		return err
+	}
+	n := 2 + r.Rng.Intn(4)
+	for k := 0; k < n; k++ {
+		if _, err := ya.(iface.EventLogStore).Add(ctx, []byte(fmt.Sprintf("late-%d-%d", gi, k))); err != nil {
+			return err
+		}
+	}
+	if err := a.Close(); err != nil {
+		return err
+	}
+	var heads []*entry.Entry
+	for _, h := range ya.OpLog().Heads().Slice() {
+		if e, ok := h.(*entry.Entry); ok {
+			heads = append(heads, e)
+		}
+	}
+	payload, err := json.Marshal(&iface.MessageExchangeHeads{Address: a.Address().String(), Heads: heads})
+	if err != nil {
+		return err
+	}
+	s.Env.Net.InjectDirect(Y.PID, X.Idx, payload)
+	time.Sleep(60 * time.Millisecond)
+	typB := []string{"keyvalue", "eventlog", "docstore"}[gi%3]
+	var events int64
+	sub, err := X.Orbit.EventBus().Subscribe([]interface{}{new(stores.EventReplicated), new(stores.EventReplicateProgress), new(stores.EventLoad)}, eventbus.BufSize(256))
+	if err != nil {
+		return err
+	}
+	b, err := X.Orbit.Create(ctx, fmt.Sprintf("late-%s-b", s.Label), typB, &orbitdb.CreateDBOptions{AccessController: ac})
+	if err != nil {
+		_ = sub.Close()
+		return err
+	}
+	baddr := b.Address().String()
+	deadline := time.After(400 * time.Millisecond)
+collect:
+	for {
+		select {
+		case e := <-sub.Out():
+			switch ev := e.(type) {
+			case stores.EventReplicated:
+				if ev.Address != nil && ev.Address.String() == baddr {
+					events++
+				}
+			case stores.EventReplicateProgress:
+				if ev.Address != nil && ev.Address.String() == baddr {
+					events++
+				}
+			case stores.EventLoad:
+				if ev.Address != nil && ev.Address.String() == baddr {
+					events++
+				}
+			}
+		case <-deadline:
+			break collect
+		}
+	}
+	_ = sub.Close()
+	sim.Settle(s.Env.Ctx, s.Env, 10*time.Second, 1, b)
+	rs := b.ReplicationStatus()
+	r.AddCase(fmt.Sprintf("(CFresh %s %s %s %s)", sim.CoqZ(rs.GetProgress()), sim.CoqZ(rs.GetMax()), sim.CoqNat(b.OpLog().Len()), sim.CoqNat(int(events))),
+		map[string]interface{}{"kind": "late-message", "sig": "message-for-another-database-applied", "type": typB, "heads": len(heads)}, true)
+	r.Count("late-message")
 	return nil
 }
 
